@@ -344,11 +344,28 @@ func cmdCheck(args []string) {
 		lines = append(lines, fmt.Sprintf("KNOWN-FINDING: property=%s %s: %s (harness %s, obligation %s)", id, p.v.Known, knownWhat[p.v.Known], p.v.Harness, p.v.ID))
 	}
 	violations := 0
+	// counterexamples of one obligation (alternates from different paths) are
+	// tried in turn until one reproduces natively
+	vkey := func(p pending) string {
+		return p.v.Harness + "|" + p.v.ID + "|" + p.v.Kind + "|" + p.v.Site
+	}
+	confirmedKey := map[string]bool{}
+	firstFail := map[string]string{}
+	var keyOrder []string
 	for i, p := range newViol {
+		k := vkey(p)
+		if confirmedKey[k] {
+			continue
+		}
+		if _, seen := firstFail[k]; !seen {
+			keyOrder = append(keyOrder, k)
+			firstFail[k] = ""
+		}
 		path := writeReplay(p, i)
 		if *noReplay {
-			lines = append(lines, fmt.Sprintf("UNREPLAYED property=%s harness=%s obligation=%s kind=%s msg=%q site=%s replay=%s", id, p.v.Harness, p.v.ID, p.v.Kind, p.v.Msg, p.v.Site, path))
-			unconfirmed++
+			if firstFail[k] == "" {
+				firstFail[k] = fmt.Sprintf("UNREPLAYED property=%s harness=%s obligation=%s kind=%s msg=%q site=%s replay=%s", id, p.v.Harness, p.v.ID, p.v.Kind, p.v.Msg, p.v.Site, path)
+			}
 			continue
 		}
 		ok, detail := nativeReplay(*repo, *verif, pdir, id, p.group, path, scratch)
@@ -361,10 +378,16 @@ func cmdCheck(args []string) {
 		if ok {
 			violations++
 			exit = 1
+			confirmedKey[k] = true
 			lines = append(lines, fmt.Sprintf("VIOLATION property=%s replay=%s", id, path))
 			lines = append(lines, fmt.Sprintf("  harness=%s obligation=%s kind=%s %s %s", p.v.Harness, p.v.ID, p.v.Kind, p.v.Msg, p.v.Site))
-		} else {
-			lines = append(lines, fmt.Sprintf("UNCONFIRMED property=%s harness=%s obligation=%s (solver counterexample did not reproduce natively: %s) replay=%s", id, p.v.Harness, p.v.ID, detail, path))
+		} else if firstFail[k] == "" {
+			firstFail[k] = fmt.Sprintf("UNCONFIRMED property=%s harness=%s obligation=%s (solver counterexample did not reproduce natively: %s) replay=%s", id, p.v.Harness, p.v.ID, detail, path)
+		}
+	}
+	for _, k := range keyOrder {
+		if !confirmedKey[k] {
+			lines = append(lines, firstFail[k])
 			unconfirmed++
 		}
 	}
